@@ -625,3 +625,109 @@ def rule_history_runs(ctx, rep):
         diff_det = sorted(k for k in set(base[0]) | set(got[0]) if base[0].get(k) != got[0].get(k))
         rep.check(not diff_det, rule, f"{name}: detector results", where, {k: (got[0].get(k) or "")[:200] for k in diff_det[:2]}, {k: (base[0].get(k) or "")[:200] for k in diff_det[:2]},
                   why="a detector's result depends on what ran before it", sample={"history": name, "results": sorted(base[0])})
+
+
+def _run_main(ctx, w, fields, files):
+    """main() with argument parsing and plugin discovery replaced by their results; returns (exception text or None, stdout lines)"""
+    mod = w.module(MAIN)
+    main = w.func(MAIN, "main")
+    defaults = cli_defaults(ctx)
+    dets = list(detector_classes(ctx).values())
+    prs = list(printer_classes(ctx).values())
+    NS = w.cls("tealer.exceptions", "TealerException")
+    args = Obj(NS)
+    args.fields.update(defaults)
+    args.fields.update({"network": "mainnet", "debug": False})
+    args.fields.update(fields)
+    saved = {}
+    for name, probe in (("get_detectors_and_printers", lambda *a, **k: (list(dets), list(prs))), ("parse_args", lambda *a, **k: args)):
+        saved[name] = mod.lookup(name)
+        mod.values[name] = ("host", probe)
+    pf = w.module(PF)
+    pf.values.pop("_apply_transaction_context_analysis", None)
+    real = pf.lookup("_apply_transaction_context_analysis")
+    pf.values["_apply_transaction_context_analysis"] = ("builtin", "noop")
+    w.files = dict(files)
+    w.stdout = []
+    err = None
+    try:
+        try:
+            w.call(main)
+        except PyRaise as e:
+            if e.exc != "SystemExit":
+                err = f"RAISES {e.exc} {e.where}"
+        return err, list(w.stdout)
+    finally:
+        for name, v in saved.items():
+            mod.values[name] = v
+        pf.values["_apply_transaction_context_analysis"] = real
+        w.stdout = None
+
+
+def rule_main_print(ctx, rep):
+    rule = "T-MAIN(print)"
+    rep.rule(rule, "the `print` command evaluated from main() down for every printer (selection by name, registration, run): completes and "
+                   "writes its file(s); an unknown printer name is rejected with the tool's own error, not an internal one")
+    w = _capture(ctx)
+    where = ctx.path(MAIN)
+    prs = printer_classes(ctx)
+    src = programs()["subroutine called twice"]
+    expected_files = {"cfg": "full_cfg.dot", "call-graph": "call-graph.dot", "transaction-context": "transaction-context.dot", "subroutine-cfg": ".dot"}
+    for pname in sorted(prs):
+        err, out = _run_main(ctx, w, {"subcommand": "print", "contracts": ["c.teal"], "printers_to_run": pname}, {"c.teal": src})
+        written = sorted(k for k in w.files if k != "c.teal")
+        ok = err is None and (pname not in expected_files or any(k.endswith(expected_files[pname]) for k in written))
+        rep.check(ok, rule, f"print {pname}", where, {"error": err, "files": written[:6]}, "completes" + (f" and writes *{expected_files[pname]}" if pname in expected_files else ""),
+                  why="a printer selected on the command line does not run to completion", sample={"printer": pname, "files": written[:4]})
+    err, out = _run_main(ctx, w, {"subcommand": "print", "contracts": ["c.teal"], "printers_to_run": "cfg,call-graph"}, {"c.teal": src})
+    written = sorted(k for k in w.files if k != "c.teal")
+    rep.check(err is None and any(k.endswith("full_cfg.dot") for k in written) and any(k.endswith("call-graph.dot") for k in written), rule, "print cfg,call-graph",
+              where, {"error": err, "files": written[:6]}, "both printers run")
+    err, out = _run_main(ctx, w, {"subcommand": "print", "contracts": ["c.teal"], "printers_to_run": "no-such-printer"}, {"c.teal": src})
+    rep.check(err is None or "TealerException" in err, rule, "unknown printer name", where, err, "the tool's own error or a message")
+
+
+def rule_main_regex(ctx, rep):
+    rule = "T-MAIN(regex)"
+    rep.rule(rule, "the `regex` command evaluated from main() down: the exported graph colours exactly the covered instructions (covered colour) and "
+                   "exactly the instructions of the matches that are not themselves covered (match colour); nothing is exported when there is no match")
+    from .regex_rules import PROGRAMS as RX_PROGRAMS, reference as rx_reference
+    w = _capture(ctx)
+    where = ctx.path("tealer.utils.regex.regex")
+    # the two colours, read off update_config by evaluating it on two marker instructions
+    from ..absobj import Builder
+    bld = Builder(ctx)
+    m1, c1 = bld.ins("int 1"), bld.ins("int 2")
+    cfg0 = w.new(w.cls(OUT, "CFGDotConfig"))
+    w.call(w.func("tealer.utils.regex.regex", "update_config"), cfg0, [[m1]], {c1})
+    cmap = w.getattr(cfg0, "custom_background_color")
+    rep.require(m1 in cmap and c1 in cmap and cmap[m1] != cmap[c1], f"update_config does not give matches and covered instructions two colours: {list(cmap.values())}")
+    match_colour, cov_colour = cmap[m1], cmap[c1]
+    pt = w.func(PT, "parse_teal")
+    for pname in ("diamond", "two matches", "loop before the match", "match only in unreachable-from-label code", "no match"):
+        src = RX_PROGRAMS[pname]
+        for label, pat in (("start", "int 4\npop"), ("*", "int 4")):
+            err, out = _run_main(ctx, w, {"subcommand": "regex", "contracts": ["c.teal"], "regex_file": "r.txt"}, {"c.teal": src, "r.txt": f"{label} =>\n{pat}\n"})
+            dots = {k: v for k, v in w.files.items() if k.endswith(".dot")}
+            teal = w.call(pt, src, "c")
+            want_m, want_c = rx_reference(ctx, teal, label, pat.splitlines())
+            # an instruction of a match from which another match is reachable is also 'covered'; the export shows it as covered
+            want_cov_lines = sorted(set(want_c or []))
+            want_match_lines = sorted({l for m in (want_m or []) for l in m} - set(want_cov_lines))
+            if err is not None:
+                rep.violation(rule, f"{pname} / {label} => {pat!r}: runs", where, err, "completes")
+                continue
+            if not want_m:
+                rep.check(not dots, rule, f"{pname} / {label} => {pat!r}: nothing exported without a match", where, sorted(dots), [])
+                continue
+            rep.check(len(dots) == 1, rule, f"{pname} / {label} => {pat!r}: one graph exported", where, sorted(dots), "one .dot file")
+            if len(dots) != 1:
+                continue
+            dot = list(dots.values())[0]
+            got = {match_colour: [], cov_colour: []}
+            for m in re.finditer(r'COLOR="(#\w+)">(?:(?!</TD>).)*?(\d+)\. ', dot, re.S):
+                if m.group(1) in got:
+                    got[m.group(1)].append(int(m.group(2)))
+            rep.check(sorted(got[match_colour]) == want_match_lines and sorted(got[cov_colour]) == want_cov_lines, rule, f"{pname} / {label} => {pat!r}: colours", where,
+                      {"match": sorted(got[match_colour]), "covered": sorted(got[cov_colour])}, {"match": want_match_lines, "covered": want_cov_lines},
+                      why="the exported graph does not mark the matches and the covered instructions", sample={"program": pname, "label": label, "pattern": pat})
